@@ -1182,9 +1182,9 @@ def walk_stmt(c, a, g):
             if init != "_":
                 raise Unaligned("initializer without expression")
             return
+        c.count("bitstring_initializer_dropped")
         if init == "_":
-            if dropped_literal(c, strip_paren(ex) if False else ex):
-                c.count("bitstring_initializer_dropped")
+            if dropped_literal(c, ex):
                 c.fail("C10", "bitstring_initializer_dropped", span="%d-%d" % (s, e))
                 return
             raise Unaligned("initializer missing")
@@ -2041,8 +2041,9 @@ def gen_decl_programs(seed, n):
             p = " ".join(r.sample([g, d, extra], 3))
         elif c < 0.85:
             # arithmetic over operand type pairs; declaration / assignment from each value form
-            ta = _type_text(r, r.choice(_SCALARS), r.choice(smallw))
-            tb = _type_text(r, r.choice(_SCALARS), r.choice(smallw))
+            pool = ["int", "uint", "float", "complex", "complex"] if r.random() < 0.3 else _SCALARS
+            ta = _type_text(r, r.choice(pool), r.choice(smallw))
+            tb = _type_text(r, r.choice(pool), r.choice(smallw))
             ca = "const " if r.random() < 0.3 else ""
             cb = "const " if r.random() < 0.3 else ""
             ia = " = " + _init_for(r, ta.split("[")[0]) if (ca or r.random() < 0.3) else ""
